@@ -1317,12 +1317,41 @@ def check_borrowed_arrays(chk) -> None:
             if isinstance(c, ast.Call) and astq.callee_name(c) in _TORSION_FUNCS:
                 feeds |= {n.attr for a in c.args for n in ast.walk(a) if isinstance(n, ast.Attribute) and n.attr in attrs}
     # locals handed to a torsion function are filled from `.coordinates` too (lists of coordinates): every array attribute named so counts
+    # functions that produce a torsion value or table, and everything they call (by name, within the package)
+    by_name: Dict[str, List[Any]] = {}
+    for fi in repo.all_funcs():
+        by_name.setdefault(fi.qualname.split(".")[-1], []).append(fi)
+    producers = {f"{fi.module.name}:{fi.qualname}": fi for fi in repo.all_funcs() if fi.qualname.split(".")[-1] in _TORSION_FUNCS + ("torsion_angles", "chi", "chi_class", "detect_cis_trans", "calculate_inter_stem_parameters")}
+    todo = list(producers.values())
+    while todo:
+        fi = todo.pop()
+        for c in ast.walk(fi.node):
+            if isinstance(c, ast.Call):
+                nm = astq.callee_name(c)
+                for g in by_name.get(nm or "", []):
+                    key = f"{g.module.name}:{g.qualname}"
+                    if key not in producers and g.module.name == fi.module.name:
+                        producers[key] = g
+                        todo.append(g)
     k = 0
     for fi, node, name, src, attr, op in found:
         in_torsion = (fi.module.name, fi.qualname) in torsion_homes
-        if not (attr in feeds or (attr == "parameter" and in_torsion)):
+        in_producer = f"{fi.module.name}:{fi.qualname}" in producers
+        if not (attr in feeds or (attr == "parameter" and in_torsion) or (attr in ("parameter", "own-result") and in_producer)):
             continue
         k += 1
+        if attr in ("parameter", "own-result") and in_producer and not in_torsion:
+            chk.violation(
+                rule,
+                fi.site(node),
+                f"{op} `{name}`, which is {src}: the write goes into the data of an object this code only received (or into the table it hands out) - on the way to a torsion value / torsion table, "
+                "so the numbers the caller gets (radians, in (-pi, pi]) are changed behind its back (e.g. converted to degrees by a diagnostic), and whether that happens depends on the run-time configuration that guards this code. "
+                "Work on a copy (`.copy()`, `to_numpy(copy=True)`, `a * k` instead of `a *= k`)",
+                K(fi, f"borrowed:{attr}:{name}"),
+                expected="in-place numpy operations only on arrays created in the same function",
+                found={"written": name, "taken from": src, "kind": attr},
+            )
+            continue
         owner = "; ".join(attrs.get(attr, [])[:2]) if attr != "parameter" else "the caller's array"
         chk.violation(
             rule,
@@ -1335,7 +1364,7 @@ def check_borrowed_arrays(chk) -> None:
             found={"written": name, "taken from": src, "attribute": attr},
         )
     if k == 0:
-        chk.ok(rule, "package", f"{n_funcs} functions read; array attributes that feed the torsion functions: {sorted(feeds) or '-'} ({'; '.join(x for a in sorted(feeds) for x in attrs[a][:2])}); no in-place numpy operation (+=, [..] =, out=, fill/sort ...) is applied to a name that aliases one of them or an array parameter of a torsion function")
+        chk.ok(rule, "package", f"{n_funcs} functions read; array attributes that feed the torsion functions: {sorted(feeds) or '-'} ({'; '.join(x for a in sorted(feeds) for x in attrs[a][:2])}); no in-place numpy operation (+=, [..] =, out=, fill/sort ...) is applied to a name that aliases one of them or an array parameter of a torsion function; none of the {len(producers)} functions on the way to a torsion value / table writes into an array or DataFrame parameter or into an array sharing memory (to_numpy / .values) with the table it returns")
 
 
 def check_chi(chk) -> None:
